@@ -148,6 +148,12 @@ def mailbox_programs(tier):
     add('children_sibling_panicked', None, {'c1': [('call', 'c1', 'panic:1'), ('call', A, 'bcast:1'), ('stop', A)]}, children=(('c1', R, True), ('c2', R, False)), K=1)
     add('children_parent_killed', None, {'c1': [('call', A, 'bcast:1'), ('ping', A)]}, children=(('c1', R, False), ('c2', AC, False)), K=1, faults=1)
     add('children_parent_panics', None, {'c1': [('send', 'c1', 'x1'), ('call', A, 'panic:1')]}, children=(('c1', R, True), ('c2', AC, False)), K=1)
+    # trees: c1 is the parent's child and registers c2 (the grandchild) in its own started()
+    add('children_tree_stop', None, {'c1': [('call', A, 'bcast:1'), ('stop', A)]}, children=(('c1', R, False), ('c2', R, False, 'c1')), K=2)
+    add('children_tree_last_drop_backlog', None, {'c1': [('send', 'c2', 'x1'), ('call', A, 'bcast:1'), ('drop', 'c2'), ('drop', A)]}, children=(('c1', R, False), ('c2', AC, True, 'c1')), K=1)
+    add('children_tree_mid_broadcasts', None, {'c1': [('call', 'c1', 'bcast:1'), ('call', A, 'bcast:2'), ('drop', 'c1'), ('stop', A)]}, children=(('c1', R, True), ('c2', R, False, 'c1'), ('c3', R, False)), K=1)
+    add('children_tree_root_killed', None, {'c1': [('call', A, 'bcast:1'), ('ping', A)]}, children=(('c1', R, False), ('c2', AC, False, 'c1')), K=1, faults=1, tag='t')
+    add('children_tree_mid_panics', None, {'c1': [('call', 'c1', 'panic:1'), ('call', A, 'bcast:1'), ('stop', A)]}, children=(('c1', R, True), ('c2', R, False, 'c1'), ('c3', R, False)), K=1, tag='t')
     add('children_kept_outside', None, {'c1': [('stop', A), ('call', 'c1', 'x1'), ('drop', 'c1')]}, children=(('c1', AC, True),), K=2)
     # broker (C09)
     add('broker_two_pubs', None, {'pub': [('ping', 's1'), ('publish', 'p1'), ('publish', 'p2')]}, broker=dict(nactors=2, subscribers=(1,)), K=1, max_steps=80)
@@ -316,7 +322,9 @@ def make_program(functions, enums, repo, spec, spawner=None):
             sy.user_script[('started_actions', f'ctx{i-1}')] = (('subscribe',),)
         p = BrokerProgram(sy, cap, scripts, handler_pending=hp, max_steps=spec['max_steps'], pre=pre, nchildren=spec['broker']['nactors'])
     elif spec['children']:
-        sy.user_script[('started_actions', 'ctx0')] = tuple((how, h) + (('keep',) if kept else ()) for (h, how, kept) in spec['children'])
+        for (h, how, kept, *par) in spec['children']:
+            pc = 'ctx0' if not par or par[0] is None else f"ctx{int(par[0][1:])}"
+            sy.user_script[('started_actions', pc)] = sy.user_script.get(('started_actions', pc), ()) + ((how, h) + (('keep',) if kept else ()),)
         p = ChildrenProgram(sy, cap, scripts, handler_pending=hp, max_steps=spec['max_steps'], pre=pre, nchildren=len(spec['children']), children_spec=spec['children'])
     else:
         cls = RegistryProgram if spec['registry'] else MailboxProgram
